@@ -608,6 +608,9 @@ class Randomizer(RandIF):
                 randomize_done(srcinfo, solve_info)
             for fm in field_model_l:
                 ConstraintOverrideRollbackVisitor.rollback(fm)
+                # Drop solver variables that an exception inside the solve left
+                # on the fields: they belong to a solver that no longer exists
+                fm.dispose()
 
         visited = [] 
         for fm in field_model_l:
